@@ -141,7 +141,11 @@ BearSum(h)  == LET F(r) == r[5] * r[3] * r[1] IN OverCars(h, F)     \* sum per a
 CdaSum(h)   == LET F(r) == r[8] * r[1] IN OverCars(h, F)
 
 ResTowedOf(h)      == h.towed = TowedOf(h)                 \* the divisor used by the projection of rr, db
-ResMassOf(h, c)    == c.ms = TowedOf(h) + h.con_mass       \* cars (or override) + consist
+(* the consist's mass is the sum of its locomotives' masses as the make-up describes them (h.umass: explicit mass, or    *)
+(* baseline + ballast + components for a unit described by its parts); runs without a described make-up (realistic-scale *)
+(* default consists) fall back on the consist's own report                                                               *)
+ConMassOf(h)       == IF h.umass = <<>> THEN h.con_mass ELSE Sum(h.umass)
+ResMassOf(h, c)    == c.ms = TowedOf(h) + ConMassOf(h)     \* cars (or override) + consist
 ResWeightOf(c)     == c.wg = c.ms                          \* weight / g
 ResRollingOf(h, c) == c.rr = RollSum(h)                    \* res_rolling / weight x towed mass
 ResDavisOf(h, s, c) == c.db = DavisSum(h) * s.v
